@@ -681,10 +681,81 @@ def _replace_node(root, old, new):
     return False
 
 
+def _literal(v) -> bool:
+    if isinstance(v, ast.Constant):
+        return isinstance(v.value, (str, int, float, bytes, bool)) or v.value is None
+    if isinstance(v, ast.Tuple):
+        return all(_literal(e) for e in v.elts)
+    if isinstance(v, ast.UnaryOp) and isinstance(v.op, ast.USub):
+        return _literal(v.operand)
+    return False
+
+
+def inline_new_constants(repo) -> Dict[str, str]:
+    """A literal that a change moved into a new module-level (or class-level) constant is put back where it
+    is used: `_LINK_SUFFIX = ".link"` ... `name + _LINK_SUFFIX`  ==>  `name + ".link"`.  Only names that are
+    new w.r.t. the inventory, bound exactly once to a literal and never re-bound are substituted."""
+    inv = load_inventory()
+    if inv.get("tables") is None:
+        return {}
+    known = set(inv["tables"])
+    done: Dict[str, str] = {}
+    for m in repo.modules.values():
+        consts = {}
+        for name, v in m.assigns.items():
+            if "%s:%s" % (m.name, name) in known or not _literal(v):
+                continue
+            n_bind = sum(1 for n in ast.walk(m.tree) if isinstance(n, ast.Name) and n.id == name and isinstance(n.ctx, (ast.Store, ast.Del)))
+            if n_bind != 1 or any(isinstance(n, ast.Global) and name in n.names for n in ast.walk(m.tree)):
+                continue
+            consts[name] = v
+        cls_consts = {}
+        for c in m.all_classes():
+            for st in c.node.body:
+                if isinstance(st, (ast.Assign, ast.AnnAssign)) and getattr(st, "value", None) is not None and _literal(st.value):
+                    tg = st.targets if isinstance(st, ast.Assign) else [st.target]
+                    for t in tg:
+                        if isinstance(t, ast.Name) and "%s:%s" % (c.qual, t.id) not in known:
+                            # never stored through self / cls / the class anywhere
+                            stored = any(isinstance(n, ast.Attribute) and n.attr == t.id and isinstance(n.ctx, (ast.Store, ast.Del)) for n in ast.walk(m.tree))
+                            if not stored:
+                                cls_consts[t.id] = st.value
+        if not consts and not cls_consts:
+            continue
+
+        class T(ast.NodeTransformer):
+            def visit_Name(self, n):
+                if isinstance(n.ctx, ast.Load) and n.id in consts:
+                    return ast.copy_location(copy.deepcopy(consts[n.id]), n)
+                return n
+
+            def visit_Attribute(self, n):
+                self.generic_visit(n)
+                if isinstance(n.ctx, ast.Load) and n.attr in cls_consts and isinstance(n.value, ast.Name):
+                    return ast.copy_location(copy.deepcopy(cls_consts[n.attr]), n)
+                return n
+
+        targets = [m] + [o for o in repo.modules.values() if o is not m and any(
+            (o.imports.get(k, "").endswith(":" + k) and o.imports.get(k, "").split(":")[0].lstrip(".").split(".")[-1] == m.name) for k in consts)]
+        for o in targets:
+            for fi in o.all_funcs():
+                if fi.parent is None:
+                    fi.node.body = [T().visit(s_) for s_ in fi.node.body]
+                    ast.fix_missing_locations(fi.node)
+        for k in list(consts) + list(cls_consts):
+            done["%s:%s" % (m.name, k)] = ast.unparse(consts.get(k) or cls_consts.get(k))
+    return done
+
+
 def flatten(repo) -> Optional[Inliner]:
     """Inline the new helpers of `repo` (in place).  Returns the Inliner (for evidence) or None."""
+    repo.inlined_constants = inline_new_constants(repo)
     inl = Inliner(repo)
     if not inl.new:
+        if repo.inlined_constants:
+            for m_ in repo.modules.values():
+                m_.reindex()
+            repo.refresh_class_index()
         return None
     changed_modules = set()
     for fi in list(repo.all_funcs()):
